@@ -82,8 +82,10 @@ enum Filt {
     L1OrHostIsOne,
     /// false by its left operand alone unless the listener is l1: `!(false && <failing>)` is true
     NotL1AndHostIsFive,
+    /// connectives of different precedence without parentheses: `a || b && c` is `a || (b && c)`
+    L1OrPort80AndHostAb,
 }
-const FILTS: [Filt; 6] = [Filt::Absent, Filt::ListenerL1, Filt::Port80, Filt::HostIsOne, Filt::L1OrHostIsOne, Filt::NotL1AndHostIsFive];
+const FILTS: [Filt; 7] = [Filt::Absent, Filt::ListenerL1, Filt::Port80, Filt::HostIsOne, Filt::L1OrHostIsOne, Filt::NotL1AndHostIsFive, Filt::L1OrPort80AndHostAb];
 /// the filters every list length is built from; the short-circuit filters join lists up to length 3
 const BASE_FILTS: usize = 4;
 const TARGETS: [&str; 3] = ["A", "B", "deny"];
@@ -96,6 +98,7 @@ fn filt_text(f: Filt) -> Option<&'static str> {
         Filt::HostIsOne => Some("to_integer(request.target.host) == 1"),
         Filt::L1OrHostIsOne => Some("request.listener == \"l1\" || to_integer(request.target.host) == 1"),
         Filt::NotL1AndHostIsFive => Some("!(request.listener == \"l1\" && to_integer(request.target.host) == 5)"),
+        Filt::L1OrPort80AndHostAb => Some("request.listener == \"l1\" || request.target.port == 80 && request.target.host == \"a.b\""),
     }
 }
 
@@ -108,6 +111,7 @@ fn filt_matches(f: Filt, r: &Req) -> bool {
         Filt::HostIsOne => r.target.host().parse::<i64>().map(|v| v == 1).unwrap_or(false),
         Filt::L1OrHostIsOne => r.listener == "l1" || r.target.host().parse::<i64>().map(|v| v == 1).unwrap_or(false),
         Filt::NotL1AndHostIsFive => r.listener != "l1" || r.target.host().parse::<i64>().map(|v| v != 5).unwrap_or(false),
+        Filt::L1OrPort80AndHostAb => r.listener == "l1" || (r.target.port() == 80 && r.target.host() == "a.b"),
     }
 }
 
@@ -410,7 +414,7 @@ fn check() {
         "exhaustive": true,
         "states": outcomes.len(), "transitions": n, "traces_validated_against_impl": n,
         "evaluations": n + attr_cases + cidr_cases, "distinct_nontrivial": nt,
-        "rule": "all rule lists of length 0..3 (thorough: + all of length 4) over 18 shapes (6 filters incl. one that fails to evaluate and two that are decided by their left operand while the right one fails x targets A,B,deny; length 4 over the 12 base shapes) x request grid (quick 12 representatives, thorough 96: listener x source family x target kind x port x feature) x 2 upstream feature sets, each through the real set_rules + process_request with recorder connectors, on a fresh state and on a state that carried the same filters with rotated targets / the reversed list before. non-trivial = more than one rule matches or removing the first rule changes the decision (counted per run). states = distinct (connect calls, callbacks, recorded connector) observations",
+        "rule": "all rule lists of length 0..3 (thorough: + all of length 4) over 21 shapes (7 filters incl. one mixing || and && without parentheses, one that fails to evaluate and two that are decided by their left operand while the right one fails x targets A,B,deny; length 4 over the 12 base shapes) x request grid (quick 12 representatives, thorough 96: listener x source family x target kind x port x feature) x 2 upstream feature sets, each through the real set_rules + process_request with recorder connectors, on a fresh state and on a state that carried the same filters with rotated targets / the reversed list before. non-trivial = more than one rule matches or removing the first rule changes the decision (counted per run). states = distinct (connect calls, callbacks, recorded connector) observations",
         "process_request_runs": n, "attribute_cases": attr_cases, "cidr_cases": cidr_cases,
         "samples": [
             {"rules": [{"filter": "to_integer(request.target.host) == 1", "target": "A"}, {"filter": "request.listener == \"l1\"", "target": "deny"}, {"target": "B"}], "request": "l1 127.0.0.1 -> a.b:80 UdpForward", "expected": "refused"},
